@@ -149,3 +149,78 @@ Proof.
   - rewrite forallb_forall in Hx. apply Hx. apply nth_In. lia.
   - apply IH; [exact Hr | lia | lia].
 Qed.
+
+(** * Face connectivity: the checker is sound for ALL blockings *)
+Lemma memi_In i l : memi i l = true <-> In i l.
+Proof.
+  unfold memi. rewrite existsb_exists. split.
+  - intros [x [Hx He]]. apply Nat.eqb_eq in He. subst. exact Hx.
+  - intro H. exists i. split; [exact H | apply Nat.eqb_refl].
+Qed.
+
+Lemma face_nbrs_nth bs j : j < length bs ->
+  nth j (face_nbrs bs) [] = filter (fun i => shares_side (nth j bs []) (nth i bs [])) (seq 0 (length bs)).
+Proof.
+  intro H. unfold face_nbrs.
+  set (F := fun a : block => filter (fun j0 => shares_side a (nth j0 bs [])) (seq 0 (length bs))).
+  rewrite (nth_indep (map F bs) [] (F [])) by (rewrite map_length; exact H).
+  rewrite map_nth. reflexivity.
+Qed.
+
+Definition reach_inv (bs : list block) (R : list nat) : Prop := forall j, In j R -> freachable bs j.
+
+Lemma fgrow_inv bs R : reach_inv bs R -> reach_inv bs (fgrow (face_nbrs bs) (length bs) R).
+Proof.
+  intros HR j Hj. unfold fgrow in Hj. apply filter_In in Hj. destruct Hj as [Hs Hc].
+  apply in_seq in Hs. apply orb_true_iff in Hc. destruct Hc as [Hc|Hc].
+  - apply HR. apply memi_In. exact Hc.
+  - apply existsb_exists in Hc. destruct Hc as [i [Hi Hm]].
+    rewrite face_nbrs_nth in Hi by lia. apply filter_In in Hi. destruct Hi as [_ Hsh].
+    apply fr_step with (i := i); [apply HR; apply memi_In; exact Hm | lia | exact Hsh].
+Qed.
+
+Lemma freach_inv bs fuel : forall R, reach_inv bs R -> reach_inv bs (freach (face_nbrs bs) (length bs) fuel R).
+Proof.
+  induction fuel as [|f IH]; intros R HR; simpl; [exact HR|].
+  destruct (length (fgrow (face_nbrs bs) (length bs) R) =? length R); [exact HR|].
+  apply IH. apply fgrow_inv. exact HR.
+Qed.
+
+Definition reach_shape (n : nat) (R : list nat) : Prop := R = [0] \/ exists f, R = filter f (seq 0 n).
+
+Lemma freach_shape nb n fuel : forall R, reach_shape n R -> reach_shape n (freach nb n fuel R).
+Proof.
+  induction fuel as [|f IH]; intros R HR; simpl; [exact HR|].
+  destruct (length (fgrow nb n R) =? length R); [exact HR|].
+  apply IH. right. unfold fgrow. eexists. reflexivity.
+Qed.
+
+Lemma filter_len_le {A} (f : A -> bool) (l : list A) : length (filter f l) <= length l.
+Proof. induction l as [|a l IH]; simpl; [lia|]. destruct (f a); simpl; lia. Qed.
+
+Lemma filter_full {A} (f : A -> bool) (l : list A) :
+  length (filter f l) = length l -> forall x, In x l -> f x = true.
+Proof.
+  induction l as [|a l IH]; intros H x Hx; [destruct Hx|].
+  simpl in H. pose proof (filter_len_le f l) as Hle.
+  destruct (f a) eqn:Fa; simpl in H.
+  - destruct Hx as [<-|Hx]; [exact Fa | apply IH; [lia | exact Hx]].
+  - lia.
+Qed.
+
+Theorem face_connected_sound bs :
+  face_connected_b bs = true -> forall j, j < length bs -> freachable bs j.
+Proof.
+  intros H0 j Hj.
+  assert (H : length (freach (face_nbrs bs) (length bs) (length bs) [0]) = length bs).
+  { destruct bs; [simpl in Hj; lia|]. unfold face_connected_b in H0. apply Nat.eqb_eq in H0. exact H0. }
+  clear H0.
+  assert (Hinv : reach_inv bs [0]).
+  { intros k [<-|[]]. apply fr_root. lia. }
+  pose proof (freach_inv bs (length bs) [0] Hinv) as HI.
+  pose proof (freach_shape (face_nbrs bs) (length bs) (length bs) [0] (or_introl eq_refl)) as [HS|[f HS]].
+  - rewrite HS in H. simpl in H. assert (j = 0) by lia. subst j. apply Hinv. left. reflexivity.
+  - apply HI. rewrite HS. apply filter_In. split; [apply in_seq; lia|].
+    rewrite HS in H. rewrite <- (seq_length (length bs) 0) in H at 2.
+    apply (filter_full f _ H). apply in_seq. lia.
+Qed.
